@@ -55,7 +55,11 @@ def arr(x):
 
 
 def yaw_of_quat(q):
+    """3-2-1 yaw of the camera quaternion; at the pitch poles (camera straight down / up) the documented convention of the 3-2-1
+    decomposition applies: roll = 0 and the yaw read from the third column"""
     R = ref.R_from_quat(q)
+    if abs(R[2, 0]) > math.cos(1e-3):
+        return math.atan2(R[1, 2], R[0, 2]) if R[2, 0] < 0 else math.atan2(-R[1, 2], -R[0, 2])
     return math.atan2(R[1, 0], R[0, 0])
 
 
@@ -65,6 +69,17 @@ def cam_quats(seed):
         for pitch, roll in ((0.0, 0.0), (0.3, -0.2)):
             R = ref.R_from_euler321([yt, pitch, roll])
             q = ref.quat_of(ref.logm_rot(R))
+            out.append((yt, q))
+    # a camera looking straight down / up (pitch exactly +-90 deg, no roll): its 3-2-1 yaw is still the commanded heading
+    for yt in (0.0, 0.7, -2.0):
+        for sgn in (1.0, -1.0):
+            hp = sgn * math.pi / 4
+            qz = np.array([math.cos(yt / 2), 0, 0, math.sin(yt / 2)])
+            qy = np.array([math.cos(hp), 0, math.sin(hp), 0])
+            q = np.array([qz[0] * qy[0] - qz[3] * qy[3] * 0 - 0, 0, 0, 0], dtype=float)  # placeholder, replaced below
+            w1, x1, y1, z1 = qz
+            w2, x2, y2, z2 = qy
+            q = np.array([w1 * w2 - x1 * x2 - y1 * y2 - z1 * z2, w1 * x2 + x1 * w2 + y1 * z2 - z1 * y2, w1 * y2 - x1 * z2 + y1 * w2 + z1 * x2, w1 * z2 + x1 * y2 - y1 * x2 + z1 * w2])
             out.append((yt, q))
     return out
 
